@@ -127,7 +127,11 @@ def c18_case(ctx: Ctx, case: dict):
     cli_o, cfg_o, cfg_mode = case.get("cli", {}), case.get("config", {}), case.get("config_mode")
     d = ctx.tmp / f"cli_{ctx.evaluations}_{abs(hash(json.dumps(case, sort_keys=True))) % 10**8}"
     d.mkdir(parents=True, exist_ok=True)
-    (d / "model.ode").write_text(text)
+    mdir = case.get("model_dir")           # the model in a sub-directory, the command run from the directory above it
+    mrel = f"{mdir}/model.ode" if mdir else "model.ode"
+    if mdir:
+        (d / mdir).mkdir(exist_ok=True)
+    (d / mrel).write_text(text)
     (d / ".git").mkdir(exist_ok=True)   # black's project-root search (used by read_config) stops at a .git directory
     ctx.case(json.dumps(case, sort_keys=True), len(cli_o) + len(cfg_o) >= 2, sample=case)
     cfgpath = None
@@ -143,12 +147,13 @@ def c18_case(ctx: Ctx, case: dict):
     eff = dict(cli_o)
     eff.update(cfg_o)      # documented: the configuration file overrides the command line
     suffix = ".py" if cmd == "ode2py" else eff.get("to", ".h")
-    target = d / Path(eff["outname"] if "outname" in cli_o else "model.ode").with_suffix(suffix)
+    # a relative output name is relative to the working directory; without one the output goes next to the model
+    target = d / Path(eff["outname"] if "outname" in cli_o else mrel).with_suffix(suffix)
     invalid = case.get("invalid")
     if invalid and case.get("preexisting"):
         target.write_text("KEEP: an earlier good output\n")    # a failed run must not clobber it either
-    rc, out = run_cli(cli_args(cmd, "model.ode", cli_o, cfgpath), d)
-    produced = sorted(p.name for p in d.iterdir() if p.is_file() and p.name not in ("model.ode", "pyproject.toml"))
+    rc, out = run_cli(cli_args(cmd, mrel, cli_o, cfgpath), d)
+    produced = sorted(p.name for p in list(d.iterdir()) + (list((d / mdir).iterdir()) if mdir else []) if p.is_file() and p.name not in ("model.ode", "pyproject.toml"))
     
     if invalid:
         if rc == 0:
@@ -172,7 +177,7 @@ def c18_case(ctx: Ctx, case: dict):
                     f"{cmd} {cli_args(cmd, 'model.ode', cli_o, cfgpath)[2:]} exited {rc}: {out.strip().splitlines()[-1][:120] if out.strip() else ''}", case=case)
         return
     if not target.exists():
-        ctx.violate(f"C18/{cmd}/output-name", f"expected output {target.name}, directory holds {produced}", case=case)
+        ctx.violate(f"C18/{cmd}/output-name", f"expected output {target.relative_to(d)}, the run wrote {produced}" + (f" (model in {mdir}/)" if mdir else ""), case=case)
         return
     got = target.read_text()
     ctx.count("files_compared")
@@ -251,6 +256,10 @@ def gen_case(ctx: Ctx, k: int):
     if rng.random() < 0.4:
         cli["outname"] = rng.choice(["result", "out/put".replace("/", "_"), "x.y"])
     case = {"text": text, "cmd": cmd, "cli": cli}
+    if k % 4 == 2:
+        case["model_dir"] = "models"
+        if k % 8 == 2:
+            cli["outname"] = rng.choice(["result", "x.y"])
     mode = rng.choice([None, None, "explicit", "pyproject"])
     if mode:
         c = opts()
